@@ -14,12 +14,26 @@ ENGINES = [
     {"name": "enumrng", "path": "/verif/pcv/enumrng.py", "kind_free_text": "enumerating/scripted numpy-Generator stand-in: exact laws of real sampler calls"},
     {"name": "Perm.tla", "path": "/verif/spec/Perm.tla", "serves_properties": ["C09", "C01"], "kind_free_text": "compatible orders, count formula, bridge-shuffle sampler"},
     {"name": "Proposal.tla", "path": "/verif/spec/Proposal.tla", "serves_properties": ["C08", "C01"], "kind_free_text": "three proposals as draw procedures + reported densities, incremental weights, telescoping state machine"},
+    {"name": "PGibbs.tla", "path": "/verif/spec/PGibbs.tla", "serves_properties": ["C01", "C19"], "kind_free_text": "distribution-lifted particle-Gibbs update in F_p with deviation constants"},
     {"name": "Forests.tla", "path": "/verif/spec/Forests.tla", "serves_properties": ["C01", "C03", "C04", "C06", "C07", "C08", "C09", "C11", "C12", "C16"], "kind_free_text": "canonical forest universe"},
 ]
 
 NOT_APPLICABLE = {}
 
 CHECKS = {
+    "C01": {
+        "engine": "PGibbs.tla",
+        "category": "model_checking",
+        "technique": "TLC distribution-lifted F_p model of one PG update (Stationary) + exact transition matrix of the real sampler by RNG enumeration",
+        "design_ref": "DESIGN.md 5 C01",
+        "text": "TLC evaluates the whole particle-Gibbs update (order draw, retained path, init, resampling with retained slot, "
+                "propagation, weights, last-step correction, selection) as an exact distribution transformer in F_p over integer density "
+                "tables and proves global balance for all forests on <=2 (quick) / <=3 (thorough) points, 3 proposals, outliers on/off, "
+                "2-3 particles, 3 resampling policies; six deviation models must be refuted. The real sampler's exact transition matrix "
+                "(every RNG outcome enumerated, both the run-command wiring and the library wiring) is computed on the same tables and on "
+                "the real density with alpha != 1, and max|pi K - pi| <= 1e-10 is required with pi = exp(log_p_one) from the code.",
+        "note": "Trusted: TLC, EnumRNG fidelity, projection. End-to-end enumeration bounded to n<=3 data points, NP<=3; n-dependent ingredients covered by C08/C09.",
+    },
     "C08": {
         "engine": "Proposal.tla",
         "category": "model_checking",
